@@ -5,6 +5,9 @@ from .. import gen, report, wire
 from .common import CATS, advertised, viol, h, is_json, is_verbose, shrink_profile_lists, SIMPLE_NET, compact_case
 
 ID = 'C01'
+CLAIM = 'seeded search over peers (name-lists, roles, SSH-1 masks) x delivery schedules; the names in the text and JSON reports are compared with what the simulated peer put on the wire, and the report must not depend on the delivery schedule; sampling, not proof'
+TRUST = 'trusted base: the TCP/DNS model (simaudit.net), the peer models pinned to 22 recorded real-server results (./check anchors), the report parsers; c2s and s2c lists are generated equal'
+TECHNIQUE = 'deterministic simulation, seeded delivery-schedule search, history oracle at the simulated peer'
 LEVEL = 'exploration'
 BUDGET = {'quick': 150, 'thorough': 1500}
 NCASES = {'quick': 700, 'thorough': 12000}
